@@ -122,6 +122,23 @@ func predContract(c Case) (r Result) {
 		return
 	}
 	r.class("compiled")
+	// a compiled expression must be usable: a text that is not a sentence cannot be
+	// (cross-check with the grammar; open known findings excluded)
+	if toks, st, _ := ref.Lex(expr); st == ref.LexError {
+		r.Violation = "Compile returned an expression for a text that is not a sequence of JMESPath tokens"
+		return
+	} else if st == ref.LexOK {
+		if _, perr := ref.Parse(toks); perr != nil {
+			if id := classifyAcceptedNonSentence(toks); id != "" {
+				r.Known = id
+				r.Violation = "Compile returned an expression for a non-sentence (known finding " + id + ")"
+				return
+			}
+			r.Nontrivial = true
+			r.Violation = "Compile returned an expression (and no error) for an ungrammatical text; such an expression is not usable"
+			return
+		}
+	}
 	if pan != nil || must == nil {
 		r.Violation = "MustCompile panicked or returned nil although Compile succeeded"
 		r.Got = fmt.Sprint(pan)
